@@ -30,6 +30,9 @@ func genC11(r *h.Rng, tier string, idx int) *h.Plan {
 	p := &h.Plan{Cfg: map[string]interface{}{}}
 	p.Cfg["state"] = r.Pick([]string{"indexed", "linear"})
 	p.Cfg["ttl"] = r.Pick([]string{"forever", "forever", "never"})
+	if r.P(1, 4) {
+		p.Cfg["own_storage"] = true
+	}
 	// how the clients reach the engine: sys.System directly, the service
 	// layer's generic request map, or the HTTP handler (JSON bodies)
 	p.Cfg["via"] = r.Pick([]string{"sys", "sys", "service", "http"})
@@ -79,11 +82,23 @@ func c11Engine(plan *h.Plan) (*hs.SvcEngine, *h.SimStorage) {
 	if plan.CfgS("ttl", "forever") == "never" {
 		ttl = sys.Never
 	}
+	if plan.CfgB("own_storage") {
+		// nothing is injected: the System creates its storage when the first
+		// request needs it - with several first requests, more than one may
+		store = nil
+	}
 	e, err := hs.NewSvcEngine(hs.SvcConfig{State: plan.CfgS("state", "indexed"), TTL: ttl}, store, hs.NewSimCron(true))
 	if err != nil {
 		panic(err)
 	}
 	return e, store
+}
+
+func c11Stored(store *h.SimStorage, loc string) string {
+	if store == nil {
+		return "(own storage)"
+	}
+	return fmt.Sprint(store.DumpIds(loc))
 }
 
 // c11Do issues one client request the way the plan says (the reference run
@@ -150,12 +165,14 @@ func execC11(t *testing.T, plan *h.Plan, trace bool) *h.Result {
 		}
 		loc := fmt.Sprintf("own%d", c)
 		wantFinal[c] = e.DoSys(h.NewCtx(h.Prot{}), hs.Req{Op: "search", Loc: loc, J: map[string]interface{}{"k": "?v"}}) + " rules=" +
-			e.DoSys(h.NewCtx(h.Prot{}), hs.Req{Op: "listrules", Loc: loc}) + " stored=" + fmt.Sprint(store.DumpIds(loc))
+			e.DoSys(h.NewCtx(h.Prot{}), hs.Req{Op: "listrules", Loc: loc}) + " stored=" + c11Stored(store, loc)
 	}
 	run := func(tape simrt.Tape, tr bool) (simrt.Report, []string, [][]string, []string) {
 		prep()
 		e, store := c11Engine(plan)
-		store.Yield = simrt.Yield
+		if store != nil {
+			store.Yield = simrt.Yield
+		}
 		got := make([][]string, nc)
 		clients := map[string]func(){}
 		for c := 0; c < nc; c++ {
@@ -175,7 +192,7 @@ func execC11(t *testing.T, plan *h.Plan, trace bool) *h.Result {
 			for c := 0; c < nc; c++ {
 				loc := fmt.Sprintf("own%d", c)
 				final[c] = e.DoSys(h.NewCtx(h.Prot{}), hs.Req{Op: "search", Loc: loc, J: map[string]interface{}{"k": "?v"}}) + " rules=" +
-					e.DoSys(h.NewCtx(h.Prot{}), hs.Req{Op: "listrules", Loc: loc}) + " stored=" + fmt.Sprint(store.DumpIds(loc))
+					e.DoSys(h.NewCtx(h.Prot{}), hs.Req{Op: "listrules", Loc: loc}) + " stored=" + c11Stored(store, loc)
 			}
 		}
 		return rep, ev, got, final
